@@ -1176,7 +1176,9 @@ class Builder:
             if not isinstance(qubit_id, Future):
                 if qubit_id != 0:
                     self._build_cmds_free_up_qubit_location(virtual_address=0)
-        outcome_reg = self._mem_mgr.get_new_meas_outcome_register()
+        outcome_reg = self._mem_mgr.get_new_meas_outcome_register(
+            keep=isinstance(future, RegFuture)
+        )
         qubit_reg = self._get_qubit_register()
         self._build_cmds_set_register_value(qubit_reg, qubit_id)
 
